@@ -49,6 +49,11 @@ structure World where
   limited  : List (Nat × Int × List Nat) := []     -- source peer's entry hashes at sync time
   hadRaw : Bool := false                          -- a validly signed entry with a hand-made payload was delivered in this scenario
   rputFail : List (Nat × Nat) := []              -- per store: injected failures of the `_remoteHeads` Put still to be matched with batches
+  /-- stores opened by `Load` in this life: `Load` returns while its progress goroutine may still be
+  handling the last fetched entry; handled after the join it sees the full log length and lifts the
+  status to len/len, at a moment the trace does not record (seen under CPU load) -/
+  lateLoad : List Nat := []
+  liveLoaded : List Nat := []                     -- stores on which `Load` was called again while open (followed from the implementation until the next restart)
   partialStores : List Nat := []                  -- stores loaded with a limit below what is persisted (until the next unlimited load)
   /-- C05: per store key, the entries seen listed at rest or acknowledged to their writer: all of
   them are covered by the cached heads, so a clean restart followed by `Load(-1)` must list them -/
@@ -389,7 +394,7 @@ def World.onObs1 (w : World) (toks : List String) : World :=
   let partialLoad := match lim with | some (_, n, full) => n > 0 && n.toNat < full.length | none => false
   let w := match lim with
     | some (_, n, _) => if partialLoad then { w with partialStores := w.key p :: w.partialStores.filter (· != w.key p) }
-                        else if n ≤ 0 then { w with partialStores := w.partialStores.filter (· != w.key p) } else w
+                        else if n ≤ 0 && !w.liveLoaded.contains (w.key p) then { w with partialStores := w.partialStores.filter (· != w.key p) } else w
     | none => w
   -- a partially loaded store stays outside the model's exact tracking for as long as it lives (what it
   -- writes or replicates lands in a log with holes, where go-ipfs-log keeps link indices of the trimmed
@@ -411,7 +416,10 @@ def World.onObs1 (w : World) (toks : List String) : World :=
   -- a log with missing ancestors (a fetch failed): the order in which the store handled the
   -- progress events and the batch is the scheduler's, and the status depends on it: adopt it
   let holes := !(w.entriesOf iv).all (fun e => e.next.all (fun h => iv.contains h))
-  let (w, s) := if w.resync.contains (w.key p) || busy || holes then
+  let late := w.lateLoad.contains (w.key p) && ist == ((ilen : Int), (ilen : Int)) &&
+    s.status.progress ≤ (ilen : Int) && s.status.max ≤ (ilen : Int) && (s.status.progress, s.status.max) != ist
+  let w := if late then { w with lateLoad := w.lateLoad.filter (· != w.key p) } else w
+  let (w, s) := if w.resync.contains (w.key p) || busy || holes || late then
       let s' := { s with status := { progress := ist.1, max := ist.2 } }
       ({ w.setStore p s' with resync := w.resync.filter (· != w.key p) }, s')
     else (w, s)
@@ -637,6 +645,8 @@ def World.onRestarted (w : World) (toks : List String) : World :=
     | .ok sf => (values sf.log).map (·.hash)
     | .error _ => []
   let w := { w with lastObs := w.lastObs.filter (·.1 != w.key p),
+                    liveLoaded := w.liveLoaded.filter (· != w.key p),
+                    lateLoad := w.key p :: w.lateLoad.filter (· != w.key p),
                     limited := (w.key p, amount, full) :: w.limited.filter (·.1 != w.key p) }
   let dur := w.durableOf (w.key p)
   let w := if amount ≤ 0 && !w.faulty && r == "ok" then { w with mustRecover := (w.key p, dur) :: w.mustRecover.filter (fun (x : Nat × List Nat) => x.1 != w.key p) }
@@ -721,8 +731,17 @@ def World.step (w : World) (line : String) : World :=
     -- `Load(n)` on the store as it is ("load more"): from here on the store is followed from the
     -- implementation's own state (as after a limited load at opening); what matters is that it returned
     let p := peerNum (toks.getD 1 "")
+    -- what the next observation must list (C15): the newest `n` entries of the persisted log — the
+    -- log reachable from the cached heads — whatever part of it the store held before the call (F36)
+    let n := parseInt (w.pending.getD 2 "-1")
+    let full := match (w.store p).reopened.load w.acl w.fetchAll (-1) with
+      | .ok sf => (values sf.log).map (·.hash)
+      | .error _ => []
+    let w := if toks.getD 2 "" == "ok" && !w.faulty then
+        { w with limited := (w.key p, (if n ≤ 0 then -1 else n), full) :: w.limited.filter (·.1 != w.key p) } else w
     let w := { w with lastObs := w.lastObs.filter (·.1 != w.key p),
                       partialStores := w.key p :: w.partialStores.filter (· != w.key p),
+                      liveLoaded := w.key p :: w.liveLoaded.filter (· != w.key p),
                       resync := w.key p :: w.resync }
     if toks.getD 2 "" != "ok" then w.fail "C15" "load" s!"peer {p}: Load({w.pending.getD 2 ""}) on the open store reports {toks.getD 2 ""}" else w
   | "loadq" => w.onLoadQ toks
